@@ -31,7 +31,32 @@ func mask(w int) uint64 {
 var tTrue = &Term{op: "const", w: 0, c: 1, isConst: true}
 var tFalse = &Term{op: "const", w: 0, c: 0, isConst: true}
 
-func bv(w int, c uint64) *Term { return &Term{op: "const", w: w, c: c & mask(w), isConst: true} }
+var smallConsts [4][512]*Term
+
+func init() {
+	for wi, w := range []int{8, 16, 32, 64} {
+		for c := 0; c < 512; c++ {
+			smallConsts[wi][c] = &Term{op: "const", w: w, c: uint64(c) & mask(w), isConst: true}
+		}
+	}
+}
+
+func bv(w int, c uint64) *Term {
+	c &= mask(w)
+	if c < 512 {
+		switch w {
+		case 8:
+			return smallConsts[0][c]
+		case 16:
+			return smallConsts[1][c]
+		case 32:
+			return smallConsts[2][c]
+		case 64:
+			return smallConsts[3][c]
+		}
+	}
+	return &Term{op: "const", w: w, c: c, isConst: true}
+}
 func bl(b bool) *Term {
 	if b {
 		return tTrue
